@@ -23,6 +23,7 @@ def ranges(lo, hi, parts):
 def oracle_lines(tier, rng):
     """(line, tag) for the in-harness big-integer oracle (implementation-vs-oracle, Rust only)"""
     L = []
+    Lb = []   # short boundary windows, appended at the end so that the long ranges stay evenly spread over the shards
     thorough = tier == 'thorough'
     # all 2^24 three-byte inputs x CTEST; all half bytes
     for ct in (0, 1):
@@ -46,6 +47,12 @@ def oracle_lines(tier, rng):
             st = 1 if thorough else 37
             for a, b in ranges(0, Q, 4):
                 L.append((f"oracle make_hint {g} {z} {a} {b} {st}", 'make_hint-grid'))
+            # every Decompose boundary of r, stride 1: the ends of each high-bits interval and the wrap-around corner q - gamma2
+            m = (Q - 1) // (2 * g)
+            for c in sorted(set([k * 2 * g + d for k in range(m + 1) for d in (-g, 0, g)] + [Q - g, Q - 1, 0, Q - 1 - g])):
+                a, b = max(0, c - 4), min(Q, c + 5)
+                if a < b:
+                    Lb.append((f"oracle make_hint {g} {z} {a} {b} 1", 'make_hint-decompose-boundaries'))
     for a, b in ranges(0, Q, 8):
         L.append((f"oracle power2round 0 0 {a} {b} 1", 'power2round-Zq-exhaustive'))
     # 32-bit reductions: whole documented domain in thorough, stride + boundary windows in quick
@@ -84,7 +91,7 @@ def oracle_lines(tier, rng):
             L.append((f"oracle partial_reduce64s 0 0 {a} {b} 29", 'partial_reduce64-shape-stride29'))
         for a, b in list(ranges(67000000, B, 4)) + list(ranges(-B + 1, -67000000 + 1, 4)):
             L.append((f"oracle partial_reduce64s 0 0 {a} {b} 1", 'partial_reduce64-top-slice-exhaustive'))
-    return L
+    return L + Lb
 
 
 def sweep_lines(tier, rng):
